@@ -129,6 +129,7 @@ def run(chk):
             if use_xy:
                 kwargs["xy"] = (X, y)
             try:
+                impl.sspoc_bystander(X.shape[1], n_classes=2 + (len(case.get("history", [])) % 2))      # another model used in between
                 if req[0] == "count":
                     impl.quiet(model.update_sensors, n_sensors=req[1], **kwargs)
                 else:
